@@ -438,6 +438,9 @@ def run(run, model):
     run.try_rule(r02_10, model)
     run.try_rule(r02_11, model)
     run.try_rule(r02_12, model)
+    from rules import c06
+    run.rule("R02.13", "no type switch on a variable that an enclosing type switch rebound at a struct type (shared with C06 R06.11)")
+    run.try_rule(c06.r06_11, model)
     from rules import c08
     run.try_rule(c08.r08_1, model)
     from rules import c07
